@@ -1,7 +1,7 @@
 (* One entry point for the OCaml runner: op name and byte-string arguments
    in, (result bytes, tag text) out.  All structure is decoded here, in Coq. *)
 From Coq Require Import NArith ZArith List Bool String.
-From GJ Require Import Base.Bytes Base.Show Model.Int Model.StrEnc Model.StrDec Model.Compact Model.Iface Model.Path Model.KeyBitmap Spec.Json Gen.Resets Model.Mem Base.TypeAddrBase Gen.TypeAddr Model.TypeCache Model.Stream Model.StreamInst Model.Enc Model.EncIndent Gen.Query Model.Query Model.Decode Model.EncTyped Model.Skip Model.PathEval Model.PathTags Gen.SliceShape Model.SlicePool Model.FieldRes Model.Cycle Gen.Tables.
+From GJ Require Import Base.Bytes Base.Show Model.Int Model.StrEnc Model.StrDec Model.Compact Model.Iface Model.Path Model.KeyBitmap Spec.Json Gen.Resets Model.Mem Base.TypeAddrBase Gen.TypeAddr Model.TypeCache Model.Stream Model.StreamInst Model.Enc Model.EncIndent Gen.Query Model.Query Model.Decode Model.EncTyped Model.Skip Model.PathEval Model.PathTags Gen.SliceShape Model.SlicePool Model.FieldRes Model.Cycle Gen.Tables Model.Layout.
 Import ListNotations.
 Open Scope N_scope.
 Open Scope string_scope.
@@ -157,6 +157,22 @@ Definition dispatch (op : list N) (args : list (list N)) : list N * list N :=
                                end) (split_on 59 (arg 0 args)) in
      match encode_graph (Z.to_nat enc_StartDetectingCyclesAfter) (succ_of adj) (List.length adj) (N.to_nat (dec_N (arg 1 args))) with
      | WOk => str "ok" | WCycle => str "cycle" | WFuel => str "fuel"
+     end, [])
+  else if list_eqb op (str "c07.stores") then
+    (* arg0: layout (wire of Model/Layout.v), arg1: the document (wire of Model/Enc.v), arg2: the address of the
+       destination inside its allocation, arg3: the byte ranges that changed, "offset:length" separated by commas *)
+    (match parse_lty (S (List.length (arg 0 args))) (arg 0 args), parse_jv (S (List.length (arg 1 args))) (arg 1 args) with
+     | Some (t, []), Some (d, []) =>
+         let ws := stores t d (dec_N (arg 2 args)) in
+         let ranges := match arg 3 args with
+                       | [] => []
+                       | a => map (fun f => let '(x, y) := take_until 58 f [] in (dec_N x, dec_N y)) (split_on 44 a)
+                       end in
+         match find (fun r => negb (covered ws 0 r)) ranges with
+         | None => str "in"
+         | Some r => str "out " ++ show_N (fst r)
+         end
+     | _, _ => str "unparsed"
      end, [])
   else if list_eqb op (str "c15.bitmap") then
     (* arg0 = sorted lower-cased names separated by LF, arg1 = decoded key *)
